@@ -32,8 +32,8 @@ TInject == /\ IsEvent("Inject")
 \* {"ev":"Q","eff":[[k,w|-1]..],"orig":[[w,k|-1]..],"inj":[[w,0|1]..]}: pure queries, -1 = raised
 TQuery == /\ IsEvent("Q")
           /\ \A p \in Range(Rec.eff) : (CanSend(p[1]) \/ p[1] \in Live) => Chk("Q.eff", p[2] = Ideal(p[1]))
-          /\ \A p \in Range(Rec.orig) : (p[1] > Horizon /\ p[1] \notin allInj) => Chk("Q.orig", p[2] = IdealOrig(p[1]))
-          /\ \A p \in Range(Rec.inj) : p[1] > Horizon => Chk("Q.inj", (p[2] = 1) <=> (p[1] \in allInj))
+          /\ \A p \in Range(Rec.orig) : (Above(p[1]) /\ p[1] >= MinEp /\ p[1] \notin allInj) => Chk("Q.orig", p[2] = IdealOrig(p[1]))
+          /\ \A p \in Range(Rec.inj) : (Above(p[1]) /\ p[1] >= MinEp) => Chk("Q.inj", (p[2] = 1) <=> (p[1] \in allInj))
           /\ UNCHANGED <<vars, tid>>
 TNext == TReset \/ TSend \/ TInject \/ TQuery
 TraceSpec == TInit /\ [][TNext]_tvars
